@@ -48,7 +48,7 @@ def gen_spec(rng, variant, tier):
     spec = {'kind': 'scripted', 'endo': endo, 'exo': exo, 'check': check, 'lags': lags, 'leads': leads, 'span': sp, 'init': init}
     if variant in ('solver', 'solver_faults') and rng.random() < 0.2:
         # the extension mixins must be transparent to the solver when their features are not used
-        spec['mixins'] = rng.sample(['alias', 'tracer', 'pandas'], rng.randint(1, 3))
+        spec['mixins'] = rng.sample(['alias', 'tracer', 'pandas', 'progress'], rng.randint(1, 4))
     return spec
 
 
@@ -203,6 +203,11 @@ def gen_solve_op(rng, spec, variant, idx, tier):
         'opts': opts,
         'plan': {'*': plan},
     }
+    mix = spec.get('mixins') or []
+    if 'progress' in mix:
+        op['pb'] = rng.choice([None, False, True, True])  # the progress-bar keyword: omitted / off / on
+    if 'tracer' in mix and rng.random() < 0.5:
+        op['trace'] = True  # the tracer's own feature in use: the solver's outcome must be what it is without it
     pokes = []
     if faults and ('preexisting' in placed or rng.random() < 0.08):
         # dirty input: a non-finite value in a series at t or at t + offset before the call
@@ -433,9 +438,7 @@ def build(fsic, spec):
     if spec['kind'] == 'scripted':
         cls = probes.make_scripted(fsic, spec)
         if spec.get('mixins'):
-            from fsic.extensions import AliasMixin, PandasIndexFeaturesMixin, TracerMixin
-
-            table = {'alias': AliasMixin, 'tracer': TracerMixin, 'pandas': PandasIndexFeaturesMixin}
+            table = probes.mixin_table()
             anyname = (spec['endo'] + spec['exo'] + ['status'])[0]
             attrs = {'ALIASES': {'ALT': anyname, 'ALT2': 'ALT'}} if 'alias' in spec['mixins'] else {}
             cls = type('Mixed', tuple(table[k] for k in spec['mixins']) + (cls,), attrs)
@@ -527,6 +530,12 @@ def do_solve(m, span, spec, op, endo, check, exo, ctx, step):
     out = {}
     try:
         kw = solver_kwargs(op['opts'])
+        if op.get('pb') is not None:
+            kw['progress_bar'] = op['pb']
+            ctx.probe('progress-bar-keyword:' + str(op['pb']) + ':' + op['op'])
+        if op.get('trace'):
+            kw.update(trace=True, reset=True)
+            ctx.probe('traced-solve-under-the-judge')
         t_arg = t
         if op.get('np_ints'):
             for k_ in ('min_iter', 'max_iter', 'offset'):
@@ -547,6 +556,11 @@ def do_solve(m, span, spec, op, endo, check, exo, ctx, step):
     except Exception as e:
         out = {'kind': 'raise', 'exc': e}
     post = ref_solver.snapshot(m)
+    if op.get('trace'):
+        # the tracer's own record is where a traced call writes by design (also the 'start' entry of a call that is
+        # then rejected); the frame is about the model's series
+        snap.pop('trace', None)
+        post.pop('trace', None)
     t_seen = t if op['op'] == 'solve_t' else tn
     call = {
         'opts': op['opts'],
